@@ -35,7 +35,7 @@ var recRule = ev.New("C01", "rule-catalogue",
 	"a generated block tree (5-20 blocks, families flat / version-gates+halving / no-BIP34 / variable-work, spending transactions) plus ONE candidate block built by a catalogue entry on a generated parent: "+
 		"valid by construction, on the valid side of the rule's limit, or breaking exactly that rule (proof of work, bits, median-time and 2h timestamp bounds, sub-second time, version gates, coinbase script length, BIP34 height, coinbase value across halvings, "+
 		"legacy and P2SH sigop limits 80000/80004, stripped size 1000000/1000001, merkle root, duplicate-tail merkle mutation, transaction structure, missing/spent/double-spent/later-in-block inputs, value conservation, coinbase maturity-1/maturity, "+
-		"lock-time finality by height and by median time, BIP68 height and 512-second sequence locks at age n/n+1 with the version-1 and disable-bit exemptions, BIP30 overwrite of an unspent/spent coinbase, witness commitment variants, P2PKH signature); "+
+		"lock-time finality by height and by median time, BIP68 height and 512-second sequence locks at age n/n+1 with the version-1 and disable-bit exemptions, BIP30 overwrite of an unspent/spent coinbase, witness commitment variants, P2PKH signature, and the script flags a block position implies: P2SH redeem execution, DER gate, CHECKLOCKTIMEVERIFY gate, null dummy, P2WPKH signature/amount/empty witness, taproot key path); "+
 		"0-3 descendants on the candidate and 0-2 competing blocks so that the candidate extends the tip, sits on a side chain that is validated by a reorganisation, or arrives as an orphan; template check, re-open before delivery, signature/hash caches on/off; "+
 		"oracle: the generator's by-construction label through the chain-selection model - an invalid candidate must never be on the active chain and must be rejected/fail to connect, a valid one must be accepted and become active when it carries the most work; "+
 		"CheckConnectBlockTemplate agrees for tip extensions; non-trivial = candidate is one side of a rule of the catalogue and was evaluated in its position; distinct by (rule, side, position, family, block hash)",
